@@ -186,7 +186,7 @@ def check_public(src_unit, prefix):
             raise cparse.CParseError('public function %s%s has an unexpected body: %s' % (prefix, suffix, norm[:300]))
 
 
-def unit_cases(ctx, p, max_leaves=600, max_cases=6, max_fuzz=16):
+def unit_cases(ctx, p, max_leaves=400, max_cases=4, max_fuzz=10):
     """Coq text evaluating one prepared Spine A unit in the IR, and the list of
     what each result position means."""
     tr = ctoir.Translator([p.header, p.source])
@@ -275,7 +275,7 @@ def run_units(ctx, preps, n_units):
                 res[idx] = int(head[3])
         p.fuzz_c_results = res
         try:
-            body, meta = unit_cases(ctx, p)
+            body, meta = unit_cases(ctx, p) if ctx.quick else unit_cases(ctx, p, 1500, 10, 30)
         except cparse.CParseError as e:
             c09_cc.limited_violation(ctx, 'ir-dialect', 'generated C cannot be translated to the IR: %s' % e,
                                      dict(kind='ir-dialect', spec=p.spec.to_json(), text=p.text, error=str(e)))
@@ -297,10 +297,9 @@ def run_units(ctx, preps, n_units):
             return ctx.coq_eval('ir_unit_%d' % i, ['Base.Prelude', 'CGen.Ir'], body, timeout=600)
         except RuntimeError as e:
             return e
-    first = ev(0)
     with ThreadPoolExecutor(max_workers=8) as ex:
-        rest = list(ex.map(ev, range(1, len(jobs))))
-    for (p, body, meta), r in zip(jobs, [first] + rest):
+        results = list(ex.map(ev, range(len(jobs))))
+    for (p, body, meta), r in zip(jobs, results):
         if isinstance(r, RuntimeError):
             c09_cc.limited_violation(ctx, 'ir-coq', 'the IR program of a generated source is rejected by Coq: %s' % str(r)[-400:],
                                      dict(kind='ir-coq', spec=p.spec.to_json(), text=p.text))
